@@ -33,8 +33,16 @@ pub fn cmd_srep(arg: &str) -> String {
     let secs: u64 = p[1].parse().unwrap();
     let nanos: u32 = p[2].parse().unwrap();
     let root = unhex(p[3]);
+    // ONE OnlineKey object per harness process signs every `srep` line it is given — both
+    // protocol versions and all clock values interleaved (a key that remembered anything from an
+    // earlier call would show); the model's make_srep is a pure function of its arguments
+    static ONLINE: std::sync::Mutex<Option<OnlineKey>> = std::sync::Mutex::new(None);
     let r = guarded(move || {
-        let mut ok = OnlineKey::new();
+        let mut g = ONLINE.lock().unwrap_or_else(|e| e.into_inner());
+        if g.is_none() {
+            *g = Some(OnlineKey::new());
+        }
+        let ok = g.as_mut().unwrap();
         let dele = ok.make_dele();
         let pubk = dele.get_field(Tag::PUBK).unwrap().to_vec();
         let m = ok.make_srep(ver, UNIX_EPOCH + Duration::new(secs, nanos), &root);
